@@ -1,4 +1,3 @@
-from gearpy.mechanical_objects import SpurGear
 from gearpy.powertrain import Powertrain
 from gearpy.units import AngularPosition, Angle
 
@@ -11,9 +10,8 @@ def _compute_static_error(
     load_torque = powertrain.elements[0].load_torque
 
     powertrain_efficiency = 1
-    for element in powertrain.elements:
-        if isinstance(element, SpurGear):
-            powertrain_efficiency *= element.master_gear_efficiency
+    for element in powertrain.elements[1:]:
+        powertrain_efficiency *= element.master_gear_efficiency
 
     if load_torque is not None:
         static_error = (
@@ -35,9 +33,8 @@ def _compute_pwm_min(powertrain: Powertrain) -> float | int:
     maximum_electric_current = powertrain.elements[0].maximum_electric_current
 
     powertrain_efficiency = 1
-    for element in powertrain.elements:
-        if isinstance(element, SpurGear):
-            powertrain_efficiency *= element.master_gear_efficiency
+    for element in powertrain.elements[1:]:
+        powertrain_efficiency *= element.master_gear_efficiency
 
     return 1/powertrain_efficiency*(load_torque/maximum_torque)*(
         (maximum_electric_current - no_load_electric_current) /
